@@ -239,8 +239,7 @@ M("c20_dbm_delete_keeps_cache", ["C20"], "shelf delete does not evict the cache 
 # ---------------------------------------------------------------- C09 / C10 / C11 (frontend)
 M("c10_config_guard_dropped", ["C10"], "server accepts a second configuration in state 1",
   ("frontend/server/services/service.py", "        if self.get_current_service_state() != SERVICE_STATE.NOT_EXISTS:\n            reason = f\"The config of service {self.short_sid} has been already uploaded.\"",
-   "        if self.get_current_service_state() == SERVICE_STATE.ALL_READY:\n            reason = f\"The config of service {self.short_sid} has been already uploaded.\""),
-  ("frontend/server/services/file_manager.py", "    _PROGRAM_PATH.joinpath(sid).mkdir()", "    _PROGRAM_PATH.joinpath(sid).mkdir(exist_ok=True)"))
+   "        if self.get_current_service_state() == SERVICE_STATE.ALL_READY:\n            reason = f\"The config of service {self.short_sid} has been already uploaded.\""))
 M("c10_upload_guard_dropped", ["C10"], "server accepts a second index in the ready state",
   ("frontend/server/services/service.py", "        if self.get_current_service_state() == SERVICE_STATE.ALL_READY:\n            reason = f\"The database of service {self.short_sid} has been already uploaded.\"",
    "        if False:\n            reason = f\"The database of service {self.short_sid} has been already uploaded.\""))
